@@ -58,7 +58,7 @@ def main():
         try:
             for c in checks:
                 t = time.time()
-                rc2, o2 = sh("cd /verif && ./check %s --tier quick" % c, timeout=3600)
+                rc2, o2 = sh("cd /verif && VERIF_EVIDENCE_DIR=/tmp/seed_evidence_eval ./check %s --tier quick" % c, timeout=3600)
                 viol = [l for l in o2.split("\n") if l.startswith("VIOLATION") or l.strip().startswith("what:")]
                 rec["checks"][c] = {"rc": rc2, "wall_s": round(time.time() - t), "violations": viol[:6]}
         finally:
